@@ -119,6 +119,7 @@ let run_line line =
   | [] -> ""
   | "B" :: args -> run_b args
   | "H" :: args -> run_h args
+  | "L" :: args -> run_h args ^ " || leak 0"
   | k :: _ -> "?unknown-case-kind " ^ k
 
 let () =
